@@ -154,3 +154,24 @@ def sweep_program(name, prog, post, out_trace, max_prefix=6, rng=None):
         return stats
     finally:
         shutil.rmtree(work, ignore_errors=True)
+
+
+def run_plain(name, prog, post, out_trace):
+    """one program to completion (no kill), then reopen, extend, reopen"""
+    work = scratch()
+    try:
+        pf, qf = os.path.join(work, "prog.json"), os.path.join(work, "post.json")
+        json.dump(prog, open(pf, "w"))
+        json.dump(post, open(qf, "w"))
+        d = os.path.join(work, "d")
+        evs, finished = run_killed(pf, d, None)
+        lines = []
+        seq = 0
+        for e in [{"ev": "scenario", "prog": name}] + evs + reopen(d, qf):
+            seq += 1
+            lines.append(json.dumps(dict(e, sc=name, seq=seq)))
+        with open(out_trace, "a") as f:
+            f.write("\n".join(lines) + "\n")
+        return {"finished": finished}
+    finally:
+        shutil.rmtree(work, ignore_errors=True)
